@@ -191,6 +191,12 @@ class GCXS(SparseArray, NDArrayOperatorsMixin):
         self._compressed_axes = tuple(compressed_axes) if isinstance(compressed_axes, Iterable) else None
         self.fill_value = self.data.dtype.type(fill_value)
 
+        if self.compressed_axes is not None and len(self.indptr) != self._compressed_shape[0] + 1:
+            raise ValueError(
+                f"The length of indptr does not match the shape and compressed_axes given.\n"
+                f"len(indptr) = {len(self.indptr)}, but {self._compressed_shape[0]} compressed rows specified."
+            )
+
         if prune:
             self._prune()
 
